@@ -256,6 +256,24 @@ def gen_eof(rnd, tier, cases):
         cases.append({'lines': ['ns_restore ' + hx(c) for c in conts[i:i + 5]], 'tags': {'family': 'ns-eof-restoreobjects'}})
 
 
+def gen_writer(rnd, tier, cases):
+    """the real writers around every digit-count boundary of the length prefix (payload made inside the harness) against the
+    real readers, and around the 1 MiB limit of anonymous connections"""
+    big = tier != 'quick'
+    M = 1 << 20
+    for k in range(1, 8 if big else 7):
+        lines = []
+        for n in (10 ** k - 1, 10 ** k, 10 ** k + 1):
+            lines.append('ns_wbig n=%d via=buf max=-1' % n)
+            lines.append('ns_wbig n=%d via=tls max=%d' % (n, rnd.choice((-1, M)) if n <= M else -1))
+        cases.append({'lines': lines, 'tags': {'family': 'ns-writer-boundaries'}})
+    lines = ['ns_wbig n=0 via=buf max=-1', 'ns_wbig n=0 via=tls max=0', 'ns_wbig n=1 via=tls max=0', 'ns_wbig n=0 via=buf max=0', 'ns_wbig n=0 via=buf max=1']
+    for n in (M - 1, M, M + 1):
+        lines.append('ns_wbig n=%d via=tls max=%d' % (n, M))
+        lines.append('ns_wbig n=%d via=buf max=%d' % (n, M))
+    cases.append({'lines': lines, 'tags': {'family': 'ns-writer-limit'}})
+
+
 def nss_case(max_, chunks, fam, mode=None, rnd=None, close='clean'):
     modes = [mode] if mode else ['sync', 'co']
     lines = ['nss_read max=%d mode=%s close=%s %s' % (max_, m, close, ','.join(hx(c) for c in chunks)) for m in modes]
@@ -513,14 +531,98 @@ def gen_json_hostile(rnd, tier, cases):
         cases.append({'lines': ['js_deep n=%d close=%d kind=%s mode=%s' % (n, close, kind, mode)], 'tags': {'family': 'js-nesting-deep'}})
 
 
+def nest_value(v, depth, kind):
+    """v wrapped depth times: 'a' arrays, 'o' dictionaries (key 'k'), 'm' alternating"""
+    return chain(depth, v, kind)
+
+
+def gen_json_boundaries(rnd, tier, cases):
+    big = tier != 'quick'
+    # every control character, NUL, DEL, quote, backslash: alone and between "plain" characters, as a string value AND as a
+    # dictionary key, at nesting levels 0..3 inside arrays, dictionaries and both (through both decoders)
+    for c in list(range(0, 0x21)) + [0x22, 0x5c, 0x7f]:
+        lines = []
+        for body in (bytes([c]), b'a' + bytes([c]) + b'b', b'x y' + bytes([c]), bytes([c]) + b'-.'):
+            h = body.hex()
+            depth = rnd.choice((0, 1, 2, 3))
+            kind = rnd.choice('aom')
+            lines.append('js_rt cmp=1 dec=%s %s' % (rnd.choice(('net', 'trusted')), nest_value('"%s"' % h, depth, kind)))
+            lines.append('js_rt cmp=1 dec=%s %s' % (rnd.choice(('net', 'trusted')), nest_value('{%s:n}' % h, depth, kind)))
+        lines.append('js_rt cmp=1 [{%s:"%s"},"%s"]' % (bytes([c]).hex(), bytes([c]).hex(), (b'ab' + bytes([c])).hex()))
+        cases.append({'lines': lines, 'tags': {'family': 'js-control-chars'}})
+    # numbers at the int64 / uint64 / 2^53 boundaries (as values: the double nearest to the decimal), -0, extreme magnitudes
+    edge = []
+    for b in (2 ** 53, 2 ** 63, 2 ** 64, 2 ** 31, 2 ** 32, 10 ** 15, 10 ** 16, 10 ** 17):
+        for d in (-2, -1, 0, 1, 2, 1024, 2048, -1024, -2048):
+            edge += [b + d, -(b + d)]
+    lines = ['js_rt cmp=%d i%d' % (1 if -2.0 ** 63 <= float(i) < 2.0 ** 64 else 0, i) for i in sorted(set(edge))]
+    for i in range(0, len(lines), 20):
+        cases.append({'lines': lines[i:i + 20], 'tags': {'family': 'js-number-boundaries'}})
+    texts = [b'9007199254740991', b'9007199254740992', b'9007199254740993', b'-9007199254740993', b'9223372036854775807', b'9223372036854775808',
+             b'9223372036854775809', b'-9223372036854775808', b'-9223372036854775809', b'18446744073709551615', b'18446744073709551616',
+             b'18446744073709551617', b'-18446744073709551615', b'-0', b'-0.0', b'-0e0', b'-0E-0', b'0e0', b'0E+0', b'-0.0e-0', b'[-0]', b'{"a":-0}',
+             b'1e308', b'1e309', b'-1e308', b'-1e309', b'1.7976931348623157e308', b'1.7976931348623158e308', b'1.797693134862315807e308',
+             b'1e-323', b'1e-324', b'1e-400', b'-1e-400', b'4.9406564584124654e-324', b'2.2250738585072014e-308', b'2.2250738585072011e-308',
+             b'1e999999999', b'1e-999999999', b'1E+9999999999999999999', b'1e-9999999999999999999', b'0e999999999999', b'0.0e-999999999999',
+             b'123456789e-9999999', b'9' * 400, b'-' + b'9' * 400, b'0.' + b'0' * 400 + b'1', b'1' + b'0' * 400 + b'e-400', b'9' * 20 + b'.5',
+             b'1.0e+00', b'1.5E+1', b'100e-2', b'0.5e1', b'9007199254740993.0', b'18446744073709551616.0', b'1e19', b'1e20', b'-1e19']
+    for dec in ('net', 'trusted'):
+        for i in range(0, len(texts), 20):
+            cases.append({'lines': ['js_dec dec=%s %s' % (dec, hx(t)) for t in texts[i:i + 20]], 'tags': {'family': 'js-number-boundaries'}})
+    # very long strings (values and keys): plain ASCII, all-escapes, multi-byte, mixed
+    for n in (1000, 4096):
+        plain = (b'abcdefghijklmnopqrstuvwxyz0123456789 ' * (n // 37 + 1))[:n]
+        esc = (bytes(range(0, 0x20)) + b'"\\/' * 3)
+        esc = (esc * (n // len(esc) + 1))[:n]
+        multi = ('\u00e4\u20ac\U0001f600x' * (n // 4 + 1))[:n].encode('utf-8')
+        lines = ['js_rt cmp=1 "%s"' % plain.hex(), 'js_rt cmp=1 dec=trusted "%s"' % esc.hex(), 'js_rt cmp=1 "%s"' % multi.hex(),
+                 'js_rt cmp=1 {%s:"%s"}' % (plain.hex(), (plain[:100] + b'\x00' + plain[100:200]).hex())]
+        if n <= 1000:
+            lines.append('js_rt cmp=1 {%s:[{%s:n}]}' % (esc.hex(), multi.hex()))
+        cases.append({'lines': lines, 'tags': {'family': 'js-long-strings'}})
+    # ... and really long ones (a pattern repeated inside the harness; expectation from the model on the pattern + the round-trip theorem)
+    pats = [b'abcdefghijklmnopqrstuvwxyz0123456789 ', bytes(range(0, 0x20)) + b'"\\/', '\u00e4\u20ac\U0001f600x'.encode('utf-8'), b'plain\x00plain', b'\x7f', b'a']
+    for reps in (1, 2, 1000, 30000) + ((1000000,) if big else ()):
+        lines = []
+        for pat in pats:
+            if reps * len(pat) > 40000000:
+                continue
+            lines.append('js_long reps=%d where=%s dec=%s %s' % (reps, rnd.choice(('val', 'key')), rnd.choice(('net', 'trusted')), pat.hex()))
+        cases.append({'lines': lines, 'tags': {'family': 'js-long-strings'}})
+    # nesting at limit-1 / limit / limit+1 (and far beyond, on the main stack) for BOTH decoders: JsonDecode refuses from
+    # limit+1 on, JsonDecodeTrusted (the state file's) reads back whatever JsonEncode wrote
+    for n in (127, 128, 129, 130, 256, 1000) + ((3000,) if big else ()):
+        for kind in 'ao':
+            cases.append({'lines': ['js_deep n=%d close=1 kind=%s mode=plain dec=trusted' % (n, kind),
+                                    'js_deep n=%d close=1 kind=%s mode=plain dec=net' % (n, kind),
+                                    'js_deep n=%d close=0 kind=%s mode=plain dec=trusted' % (n, kind)], 'tags': {'family': 'js-nesting-trusted'}})
+    for d in (63, 64, 127, 128):
+        for kind in 'aom':
+            cases.append({'lines': ['js_rt cmp=1 dec=%s %s' % (dec, chain(d - 1, '[]', kind)) for dec in ('net', 'trusted')] +
+                                   ['js_rt cmp=1 dec=trusted %s' % chain(d, '"%s"' % b'a\x00b'.hex(), kind)], 'tags': {'family': 'js-nesting-trusted'}})
+    for d in (129, 130, 200, 500):
+        for kind in 'aom':
+            cases.append({'lines': ['js_rt cmp=1 dec=trusted %s' % chain(d - 1, '{}', kind), 'js_rt cmp=1 dec=trusted %s' % chain(d, 'i%d' % rnd.choice(INTS), kind)],
+                          'tags': {'family': 'js-nesting-trusted'}})
+    # the hostile documents through the second decoder as well
+    cases.append({'lines': ['js_dec dec=trusted ' + hx(h) for h in HOSTILE_JSON], 'tags': {'family': 'js-hostile-fixed'}})
+    for i in range(600 if big else 120):
+        doc = rand_doc(rnd, rnd.choice((1, 2, 3))).encode('utf-8', 'surrogatepass')
+        if rnd.random() < 0.7:
+            doc = mutate_json(rnd, doc)
+        cases.append({'lines': ['js_dec dec=trusted ' + hx(doc)], 'tags': {'family': 'js-hostile-mutated'}})
+
+
 def generate(seed, tier):
     rnd = random.Random(seed)
     cases = []
     gen_netstring(rnd, tier, cases)
     gen_eof(rnd, tier, cases)
+    gen_writer(rnd, tier, cases)
     gen_stream(rnd, tier, cases)
     gen_json_rt(rnd, tier, cases)
     gen_json_hostile(rnd, tier, cases)
+    gen_json_boundaries(rnd, tier, cases)
     return cases
 
 
